@@ -28,7 +28,8 @@ META = {
         ' Also: lock-down of default_ns/default_ew/ocr_scrub (guard asks about the argument; attribute not read again), an omitted default falls back to MasterConfig.<p> (not a frozen constant), the settings are known to Config, sub_scrubber replaces by position.'
         " Round 7: the OCR pattern's N/S group is mandatory while the number class contains 'S'; Twp/Rge negatives on section lists; the config word dispatch sends layout names to .layout (not to a direction); PLSSDesc.parse feeds the parser the original text."
         ' Round 8: whoever reads `rgenum` reads its alternative `rgenum_edgecase_rge2` (exclusive groups from the branch structure); the list of Twp/Rges present before scrubbing is not padded.'
-        ' Round 11: the OCR look-alike table is read through chained .replace() calls or a str.maketrans table.'),
+        ' Round 11: the OCR look-alike table is read through chained .replace() calls or a str.maketrans table.'
+        ' Round 12: every shape of township / range number (each leading digit, 1-3 digits) is matched by the exact matcher (look-aheads are invisible to language inclusion).'),
     'assumptions': [
         "zero-width assertions are epsilon in the inclusion test (the repo "
         "regex is over-approximated, so a reported counterexample is a true "
@@ -221,6 +222,7 @@ def check(ctx):
                 'plssdesc/plss_preprocess.py', 'config/master_config.py')
     twprge = g('twprge_regex')
     ctx.attempt(_inc, 'RX-LANG', 'twprge_regex', F.TWPRGE_FULL, twprge, 'full spellings')
+    ctx.attempt(_number_witnesses, twprge)
     ctx.attempt(_inc, 'RX-LANG', 'twprge_regex', F.TWPRGE_CANON, twprge, 'canonical T#N-R#W')
     ctx.attempt(_inc, 'RX-LANG', 'pp_twprge_no_nswe', F.TWPRGE_NO_NSWE, g('pp_twprge_no_nswe'), 'T and R, directions missing')
     ctx.attempt(_inc, 'RX-LANG', 'pp_twprge_no_nsr', F.TWPRGE_NO_NSR, g('pp_twprge_no_nsr'), 'T and e/w, n/s and R missing')
@@ -627,3 +629,24 @@ def _calltime_defaults(ctx):
     from .c13 import precedence
     for spec in ('PLSSDesc.parse', 'PLSSDesc.preprocess', 'Tract.set_twprgesec', 'PLSSPreprocessor.preprocess'):
         precedence(ctx, ctx.repo.func(spec), ('default_ns', 'default_ew'))
+
+
+def _number_witnesses(ctx, twprge):
+    """Language inclusion treats look-arounds of the repo pattern as always
+    true (an over-approximation), so a look-ahead that REJECTS numbers
+    (a negative look-ahead in front of the digits) is invisible to it.  The exact matcher is therefore asked
+    directly: every township / range number shape - each leading digit, one to
+    three digits - in the plain and the 'T..-R..' spellings."""
+    L = common.lang(ctx, twprge)
+    bad = []
+    n = 0
+    nums = [str(d) for d in range(1, 10)] + [f"{d}0" for d in range(1, 10)] + [f"{d}07" for d in range(1, 10)] + ['20', '25', '29', '200', '299']
+    for num in dict.fromkeys(nums):
+        for s_ in (f"T154N-R{num}W", f"T{num}N-R97W", f"154N-{num}W" if len(num) > 1 or num != '2' else "154N-R2W", f"{num}N-97W"):
+            n += 1
+            if not L.fullmatch(s_):
+                bad.append(s_)
+    ctx.check(not bad, 'RX-LANG', 'twprge_regex matches every shape of township / range number (exact matcher)',
+              f"{n} witnesses", f"not matched: {bad[:6]} ({len(bad)} of {n}): descriptions with such a township / range get an error "
+                                f"Twp/Rge although they are written in a documented spelling",
+              key=f"RX-LANG|twprge_regex|number-witnesses|{','.join(bad[:3])}")
